@@ -117,8 +117,10 @@ package preference_reversal
 //@   && (forall q string :: (forall k int :: 0 <= k && k < len(rep) ==> rep[k].Id != q) ==>
 //@          ((q in nw.Criteria <==> q in od.Criteria) && (q in nw.Criteria ==> nw.Criteria[q] == od.Criteria[q])))
 
+// what "made of the current state" means for this bias (the abstract model.actsOn)
+//@ pred prActs(b model.Bias, out *model.DecisionMakingParams, in *model.DecisionMakingParams) = out.Criteria == in.Criteria && out.MethodParameters == in.MethodParameters && len(out.ConsideredAlternatives) == len(in.ConsideredAlternatives)
 //@ func (*PreferenceReversal).Apply
-//@   refines model.Bias.Apply
+//@   refines model.Bias.Apply with actsOn=prActs
 //@   property C16 C09 C07 C01
 //@   requires model.distinctCriteria(current.Criteria) && model.validParams(*listener, current.MethodParameters) && model.coversAll(*listener, current.MethodParameters, current.Criteria)
 //@   requires distinctAll(current.ConsideredAlternatives, current.NotConsideredAlternatives)
